@@ -1,5 +1,5 @@
 (* C20 -- Query commands agree with the graph and predict rebuilds.
-   Only statements, each closed by [exact] of a lemma from Select_proofs.v.
+   Only statements, each closed by [exact] of a lemma from Select_proofs.v or Owners_proofs.v.
    [deps_t] / [rdeps_t] are the node lists GetAncestors / GetDescendants return (depth-first with a
    visited map, since the repair of C19-F2/F3), [deps_query] / [rdeps_query] / [owners] /
    [list_query] the printed, sorted lines (label.PrintSorted compacts the sorted list since the
@@ -7,7 +7,7 @@
    the target it resolves to) since the repair of C20-F2: [passes_filters] is the type / tag /
    exclude-tag / platform test on that target.
    (C20_rebuild_predicted needs the build model and is stated with it, not here.) *)
-From Grog Require Import Str Label Graph Select Select_proofs.
+From Grog Require Import Str Path Path_proofs Label Graph Select Select_proofs Owners_proofs.
 
 (* deps -t / rdeps -t contain exactly the transitive dependencies / dependants ... *)
 Theorem C20_deps_exact : forall g n x, topo g -> (In x (deps_t g n) <-> reach g x n).
@@ -104,14 +104,95 @@ Theorem C20_rdeps_direct_exact : forall cfg ns g n s,
 Proof. exact rdeps_query_direct_exact. Qed.
 Print Assumptions C20_rdeps_direct_exact.
 
-(* owners f: exactly the targets having f among their resolved inputs *)
+(* owners f: exactly the targets having f among their resolved inputs.  Inputs ([ninputs]) are the literal inputs AS
+   SPELLED in the BUILD file, the files are the arguments as typed (relative to the workspace root); an input names the
+   file [canon_input pkg inp] = Clean(Join(pkg, inp)), an argument the file [canon_arg f] = Clean(f) *)
 Theorem C20_owners_exact : forall ns files s,
   In s (owners ns files) <->
   exists i, i < length ns /\ is_target (attr ns i) = true /\
-            (exists f inp, In f files /\ In inp (ninputs (attr ns i)) /\ input_path (attr ns i) inp = f) /\
+            (exists f inp, In f files /\ In inp (ninputs (attr ns i)) /\
+                           canon_input (lpkg (nlabel (attr ns i))) inp = canon_arg f) /\
             s = print_label (nlabel (attr ns i)).
 Proof. exact owners_exact. Qed.
 Print Assumptions C20_owners_exact.
+
+(* only the file named matters, not its spelling: inputs replaced by other spellings of the same files (same kind and
+   label: [respelled]) and arguments by other spellings of the same files print the same lines *)
+Theorem C20_owners_spelling_independent : forall ns ns' files files',
+  Forall2 respelled ns ns' -> args_respelled files files' -> owners ns files = owners ns' files'.
+Proof. exact owners_spelling_independent. Qed.
+Print Assumptions C20_owners_spelling_independent.
+
+(* ... in particular one input of one target, or one argument *)
+Theorem C20_owners_input_respelled : forall pre post a i j ins1 ins2 files,
+  ninputs a = ins1 ++ i :: ins2 ->
+  canon_input (lpkg (nlabel a)) i = canon_input (lpkg (nlabel a)) j ->
+  owners (pre ++ a :: post) files = owners (pre ++ with_inputs a (ins1 ++ j :: ins2) :: post) files.
+Proof. exact owners_input_respelled. Qed.
+Print Assumptions C20_owners_input_respelled.
+
+Theorem C20_owners_arg_respelled : forall ns fs1 fs2 f f',
+  canon_arg f = canon_arg f' -> owners ns (fs1 ++ f :: fs2) = owners ns (fs1 ++ f' :: fs2).
+Proof. exact owners_arg_respelled. Qed.
+Print Assumptions C20_owners_arg_respelled.
+
+Theorem C20_owners_spelling_independent_nonvacuous :
+  Forall2 respelled spelled_nodes canonical_nodes /\ args_respelled [arg_pf'; arg_pdg'] [arg_pf; arg_pdg] /\
+  spelled_nodes <> canonical_nodes /\
+  owners spelled_nodes [arg_pf'; arg_pdg'] = owners canonical_nodes [arg_pf; arg_pdg].
+Proof. exact owners_spelling_independent_nonvacuous. Qed.
+Print Assumptions C20_owners_spelling_independent_nonvacuous.
+
+(* package p, //p:t1..t4 with the inputs ./f, zz/../f, d//g, d/./g, //p:t5 with f: all found by `owners p/f p/d/g`,
+   and by `owners ./p//f p/x/../d/./g` *)
+Theorem C20_owners_spelled_nonvacuous :
+  owners spelled_nodes [arg_pf; arg_pdg] = [plab t_1; plab t_2; plab t_3; plab t_4; plab t_5] /\
+  owners spelled_nodes [arg_pf'; arg_pdg'] = [plab t_1; plab t_2; plab t_3; plab t_4; plab t_5] /\
+  owners spelled_nodes [arg_pf] = [plab t_1; plab t_2; plab t_5] /\
+  owners spelled_nodes [arg_pdg'] = [plab t_3; plab t_4].
+Proof. exact owners_spelled_found. Qed.
+Print Assumptions C20_owners_spelled_nonvacuous.
+
+(* the comparison with the input as spelled (seeded changes C20c, C20d, C20f) misses them *)
+Theorem C20_owners_verbatim_refuted :
+  owners_verbatim spelled_nodes [arg_pf; arg_pdg] = [plab t_5] /\
+  owners spelled_nodes [arg_pf; arg_pdg] <> owners_verbatim spelled_nodes [arg_pf; arg_pdg].
+Proof. exact owners_verbatim_refuted. Qed.
+Print Assumptions C20_owners_verbatim_refuted.
+
+(* [owners] leaves out the workspace root, which owners.go puts in front of both sides ([owners_abs]: Join(root,
+   Join(pkg, input)) against Abs(argument), root = "/" ++ rootc joined by "/").  REFUTED for paths that climb above
+   the root (root /w/ws, `owners ../ws/p/f`); true when no input and no argument does *)
+Theorem C20_owners_abs_is_owners_refuted :
+  owners_abs [s_w; s_ws] climb_nodes [climb_arg] = [dslash ++ s_p ++ ch_colon :: s_t] /\
+  owners climb_nodes [climb_arg] = [] /\
+  stays_inside climb_arg = false.
+Proof. exact owners_root_dropped_refuted. Qed.
+Print Assumptions C20_owners_abs_is_owners_refuted.
+
+Theorem C20_owners_abs_is_owners_partial : forall rootc ns files,
+  Forall plain rootc ->
+  (forall a inp, In a ns -> In inp (ninputs a) -> stays_inside (input_path a inp) = true) ->
+  (forall f, In f files -> stays_inside f = true) ->
+  owners_abs rootc ns files = owners ns files.
+Proof. exact owners_abs_is_owners. Qed.
+Print Assumptions C20_owners_abs_is_owners_partial.
+
+Theorem C20_owners_abs_is_owners_nonvacuous :
+  Forall plain [s_w; s_ws] /\
+  (forall a inp, In a climb_nodes -> In inp (ninputs a) -> stays_inside (input_path a inp) = true) /\
+  (forall f, In f [s_p ++ ch_slash :: dot ++ ch_slash :: s_f] -> stays_inside f = true) /\
+  owners_abs [s_w; s_ws] climb_nodes [s_p ++ ch_slash :: dot ++ ch_slash :: s_f] = [dslash ++ s_p ++ ch_colon :: s_t].
+Proof. exact owners_abs_is_owners_nonvacuous. Qed.
+Print Assumptions C20_owners_abs_is_owners_nonvacuous.
+
+(* the guard on inputs is what analysis.checkInputPathsRelative enforces: an input that is relative and does not leave
+   its package does not leave the workspace (package path = plain elements joined by "/", "" for the root package) *)
+Theorem C20_input_stays_in_workspace : forall a inp comps,
+  Forall plain comps -> lpkg (nlabel a) = join slash comps ->
+  stays_inside inp = true -> stays_inside (input_path a inp) = true.
+Proof. exact input_stays_in_workspace. Qed.
+Print Assumptions C20_input_stays_in_workspace.
 
 (* list: exactly the nodes matched by a pattern whose target passes the filters *)
 Theorem C20_list_exact : forall cfg ns g s,
